@@ -8,12 +8,15 @@ from ..facts import AnchorMissing
 
 LEVEL = ("decides writer/reader agreement of the DRCP text format from the two sources: the reader's "
          "nom combinator tree is recovered from MIR into a grammar, the writer's output templates are "
-         "recovered path-wise (optional parts absent/present, loops 0–2 times) into token skeletons, "
-         "and every skeleton the writer can emit for a step kind must be in the language of the reader's "
-         "grammar for that kind (K2, bounded); the literal token sets agree (K1); negation of an atomic "
-         "constraint is the involution GE(v)↔LE(v−1), EQ↔NE on the same variable (K3); the literal "
-         "definition line is written as the reader's grammar expects (K4). Does not decide equality of "
-         "parsed content for arbitrary identifiers and 64-bit values")
+         'recovered path-wise (optional parts absent/present, loops 0–2 times) into token skeletons, '
+         'and every skeleton the writer can emit for a step kind must be in the language of the '
+         "reader's grammar for that kind (K2, bounded); the literal token sets agree (K1); negation of"
+         ' an atomic constraint is the involution GE(v)↔LE(v−1), EQ↔NE on the same variable (K3); the '
+         "literal definition line is written as the reader's grammar expects (K4). steps that differ "
+         'in which optional parts are present are written differently (K2 writer-injective); every '
+         "integer type of the format's step / atomic types and every integer type the writer formats "
+         'has a reader parser of the same type (K4 NUM-WIDTH). Does not decide equality of parsed '
+         'content for arbitrary identifiers and 64-bit values')
 TECHNIQUE = "static analysis: grammar recovery from nom combinators and format templates in rustc MIR, bounded language inclusion"
 
 # ---------------------------------------------------------------------------------------------
